@@ -16,49 +16,62 @@ def oracles_():
 TRUSTED = [
     "impl/t_sorted.c read-only checker of the red-black tree / sibling links / lyds_tree metadata placement "
     "(link-level faithfulness of the zipper model is tied by this checker, not proved)",
+    "tools/props/comps_sorted.py Python list models SeqModel / SibModel (judges of the oracles sorted-order, sibling-order) and "
+    "the invariant checker of impl/lyx.c (oracle edit-history)",
 ]
 
 ASSUMPTIONS = [
-    "the type plugin's sort callback is a total preorder (premise total_preorder of the C04_* theorems; proved for the "
-    "integer types, decimal64 and boolean in C03, instance C04_int_order_instance); other types are only run (string, union)",
-    "identity of data nodes is modelled by a decidable equality on (key, id) pairs (premise is_identity)",
+    "the type plugin's sort callback is a total preorder (premise total_preorder of the C04_* theorems; shown for the orders of "
+    "the integer types and decimal64 in C04_int_order_instance); string, union and list-key orders are only run",
+    "identity of data nodes is a decidable equality on (key, id) pairs (premise is_identity); the theorems about lists take "
+    "pairwise different nodes (NoDup) and the invariant lyds_ok (tree walk = siblings, tree is a red-black search tree) as premises",
+    "model of lyd_merge (lyd_merge_list): no two SOURCE instances compare equal (the duplicate-instance bookkeeping of "
+    "lyd_merge_sibling_r is not modelled); model of lyds_merge: a target WITHOUT tree that meets a source WITH tree is sorted "
+    "(premise of C04_lyds_merge_spec; otherwise lyds_merge_nodes2_among walks into NULL, the model answers None)",
+    "LYD_DUP_NO_LYDS into a list that already has a sorting tree, and an opaque node moved among data nodes by "
+    "lyd_insert_after/before, are legal calls that break the invariants by contract; they are not generated",
 ]
 
 MANIFEST = {
-    "text": "PROVED (Coq, Properties_C04_sorted.v, closed under the global context) - the ordering kernel: the red-black tree "
-            "of src/tree_data_sorted.c modelled branch by branch (rb_insert_node/rb_insert_color, rb_remove/rb_remove_color, "
-            "rb_find, rb_prev/rb_next; parent pointers as a zipper) for an ARBITRARY total preorder: in-order walk after "
-            "insert = stable insert (equal keys after the existing ones), after remove = walk without that element; search "
-            "order, black root, no red-red, equal black height are preserved and the unchecked sibling/grandparent "
-            "dereferences never meet NULL (C04_rb_inv_preserved, C04_rb_remove_no_null_deref); height <= 2 log2(n+1); rb_find "
-            "finds a node iff a scan does; every history of inserts/removes keeps the walk sorted, a permutation of the live "
-            "nodes with equal keys in insertion order (C04_sorted_history); insertion-order independence for distinct keys; "
-            "and one level up (Sorted.v: lyds_insert incl. lazy tree creation and lyds_link_data_node, lyds_unlink) the sibling "
-            "sequence of one system-ordered (leaf-)list equals the tree walk and the abstract stable sorted sequence after "
-            "every history (C04_lyds_history), and lyd_dup of a list of instances into a parent with existing instances keeps tree "
-            "and siblings together (C04_lyds_dup_spec; the condition before /repo d989bef is refuted by C04_lyds_dup_before_fix_refuted). "
-            "lyd_merge of the instances of one (leaf-)list, destructive with ANY number of recycled red-black nodes (lyds_pool_add, "
-            "lyds_insert2, lyds_additionally_reuse_rb_tree incl. the hand-over when the pool runs dry) or not, gives the stable sorted "
-            "merge of both runs with tree = siblings and nothing lost (C04_lyd_merge_spec; the seeded change C14-6 is the regression "
-            "Example C04_lyd_merge_skip_refuted). lyd_unlink_siblings (lyds_split: exact prefix / remainder, C04_lyds_split_spec) and "
-            "lyd_insert_child / lyd_insert_sibling of several nodes (lyds_merge with lyds_merge_nodes1/2/3, all cases: stable sorted "
-            "merge, C04_lyds_merge_spec; cefb23b regression Example C04_lyds_merge_nodes2_regression). TIED by T2: extracted model vs the static rb_* functions and vs the public API "
-            "(lyd_new_term/lyd_new_list, lyd_insert_child/sibling, lyd_unlink_tree, lyd_free_tree, LYD_INSERT_NODE_LAST "
-            "appends, lyd_find_sibling_val) on int8/string/decimal64/union leaf-lists and 1-/2-key lists, comparing after "
-            "EVERY call the sibling order, the exact tree shape with colours, the metadata owner and a read-only invariant "
-            "check; exhaustive scripts over 4 keys plus long random scripts. EXPLORED ONLY (oracle EditHistory, no proof): whole "
-            "edit histories through create-by-path, dup, merge, diff apply, implicit nodes, validate; schema order between "
-            "different nodes; user-ordered lists; the children hash table; every search function = scan. EXPLORED against list "
-            "models (oracles sorted-order, sibling-order of comps_sorted.py, no proof): lyd_merge of source lists with equal keys, and ALL children of one parent (schema order, "
-            "user-ordered instances moved by lyd_insert_after / lyd_insert_before incl. wrap-around positions, opaque nodes last, "
-            "lyd_find_sibling_first / _val / _opaq_next = scan, with and without children hash table).",
-    "note": "Not modelled in Coq: the pool's node recycling itself (rb_iter_traversal; the pool is a counter in the model), the duplicate-"
-            "instance bookkeeping of lyd_merge_sibling_r (source instances with equal keys; Python model only), parent-pointer and "
-            "metadata link-level details (checked by the driver's checker only), the children of one parent beyond one (leaf-)list "
-            "(schema order, user-ordered moves, opaque nodes: Python list model SibModel only), ChildIdx/Edit layers of DESIGN.md C04 "
-            "(slice ht covers the hash table itself). lyds_merge_nodes2 needs a sorted target (model: None otherwise). The known "
-            "finding implicit-toplevel-order belongs to the explored part. Findings of the slice, all fixed in /repo: cefb23b "
-            "(uninitialised *next_p in lyds_merge_nodes2), d989bef + 03a093d (lyd_dup into existing instances).",
+    "text": "PROVED (Coq, Properties_C04_sorted.v, all closed under the global context) for ONE system-ordered (leaf-)list and an "
+            "ARBITRARY total preorder as compare callback. (a) red-black tree of src/tree_data_sorted.c, transcribed branch by branch "
+            "(rb_insert_node/rb_insert_color, rb_remove/rb_remove_color, rb_find, rb_prev/rb_next; parent pointers as a zipper; unchecked "
+            "dereferences answer None): in-order walk after insert = stable insert, after remove = walk without that element "
+            "(C04_rb_inorder_insert, C04_rb_inorder_remove); search order, black root, no red-red, equal black height are preserved and "
+            "no unchecked dereference meets NULL (C04_rb_inv_preserved, C04_rb_remove_no_null_deref); C04_rb_check_sound, "
+            "C04_rb_height_log, C04_rb_prev_next; on a search tree rb_find finds a node iff a scan does (C04_find_iff_scan); every "
+            "history of inserts/removes of existing positions from the empty tree keeps the walk sorted, and for fresh nodes a "
+            "permutation of the live nodes with equal keys in insertion order (C04_sorted_history); C04_insert_order_independent for "
+            "pairwise non-equal keys. (b) sibling sequence + lyds_tree (Sorted.v), premises lyds_ok and pairwise different nodes: "
+            "lyds_insert incl. lazy tree creation and lyds_link_data_node, lyds_unlink (C04_lyds_insert_spec, C04_lyds_unlink_spec, "
+            "C04_lyds_history: siblings = tree walk = abstract stable sorted sequence); lyd_dup of instances into a parent as of /repo "
+            "03a093d (C04_lyds_dup_spec; regression Examples C04_lyds_dup_before_fix_refuted for the code before d989bef, "
+            "C04_lyds_dup_keeps_source_order); lyd_merge with and without LYD_MERGE_DESTRUCT for ANY number of recycled red-black nodes "
+            "(lyds_pool_add, lyds_insert2, lyds_additionally_reuse_rb_tree: C04_lyd_merge_spec; seeded change C14-6 = Example "
+            "C04_lyd_merge_skip_refuted); lyd_unlink_siblings = lyds_split (C04_lyds_split_spec: exact prefix / remainder); "
+            "lyd_insert_child/sibling of several nodes = lyds_merge with lyds_merge_nodes1/2/3 (C04_lyds_merge_spec: stable sorted "
+            "merge, nothing lost, for a sorted target when only the source has a tree; Example C04_lyds_merge_nodes2_regression for "
+            "cefb23b). Premises are satisfiable: C04_int_order_instance, C04_sorted_history_int, C04_hypotheses_satisfiable. "
+            "TIED by T2 (extracted model vs C, white-box driver t_sorted.c): the static rb_* functions, and the public API on "
+            "int8/string/decimal64/union leaf-lists and 1-/2-key lists, top level and in a container, with and without neighbours "
+            "(lyd_new_term/lyd_new_list/lyd_new_path, lyd_insert_child/sibling, LYD_INSERT_NODE_LAST appends, lyd_unlink_tree, "
+            "lyd_free_tree, lyd_unlink_siblings, lyd_dup_siblings/lyd_dup_single, lyd_merge_tree/lyd_merge_siblings, "
+            "lyd_find_sibling_val), comparing after EVERY call the sibling order, the exact tree shape with colours, the metadata "
+            "owner and a read-only invariant check; exhaustive short scripts over 4 keys plus long random scripts. "
+            "EXPLORED ONLY, no proof: oracle edit-history (random histories of create by path, free, change value incl. keys, "
+            "unlink + re-insert, merge, apply diff, add implicit, validate on generated schemas; invariant checker after every call: "
+            "links, schema order, contiguity, sortedness, children hash table content, every search = scan; print/parse fixpoint; "
+            "creation-order independence); oracles sorted-order and sibling-order against Python list models (lyd_merge of sources "
+            "with equal keys; ALL children of one parent: schema order, user-ordered instances moved by lyd_insert_after/before "
+            "incl. wrap-around, opaque nodes last, lyd_find_sibling_first/_val/_opaq_next = scan, with and without hash table).",
+    "note": "Modelled, not verified against C by proof: the Coq functions are hand transcriptions; T2 observes sibling order, tree "
+            "shape/colours, metadata owner and find answers only through the driver. In the model the pool of recycled nodes is a "
+            "counter (rb_iter_traversal itself is not modelled; lyds_merge_nodes3 uses its post-order), parent pointers / metadata "
+            "links are not represented (driver checker only). Outside Coq: everything about more than one schema node under a parent "
+            "(schema order, user-ordered lists, opaque nodes, children hash table: oracles only; the hash table itself is slice ht), "
+            "the ChildIdx/Edit layers of DESIGN.md C04, change of key/leaf-list values, diff apply, implicit nodes, validation. "
+            "No C04 finding is open. Retired (fixed in /repo): implicit-toplevel-order 7ad8277, childidx-stale-after-change 007df2f, "
+            "merge-dup-unsorted 07a2996, lyds-merge2-next-uninit cefb23b, dup-append-into-existing d989bef, dup-resort-from-third 03a093d.",
     "technique": "Coq proof over hand-written model (ordering kernel) + differential correspondence incl. exact tree shape "
                  "(extracted OCaml vs C, white-box and public API) + randomised edit histories with invariant checker (rest)",
 }
